@@ -221,6 +221,11 @@ def gen_wellformed(rng, tier):
         for tight in (False, True):
             ws, _ = encode(v, tight)
             cases.append(query_ops(rng, v, hexb(ws), tree_arg(v, tight)))
+            # the same documents at every placement modulo 16: the fixed info is handed out as a
+            # `&VS_FIXEDFILEINFO` (alignment 4), so only 4-aligned blocks may be accepted
+            if v["value"]:
+                for al in (2, 6, 10, 14, 1, 4, 8, 12):
+                    cases.append(["verat %d %s %s" % (al, hexb(ws), q) for q in ("events", "fixed", "file_info", "source")])
     for i in range(n):
         clean = rng.random() < 0.7
         v = rand_info(rng, clean)
